@@ -115,7 +115,7 @@ def _disc(cat, props, case, expected, observed, why):
     return dict(category=cat, properties=props, case=case, expected=expected, observed=observed, why=why)
 
 def check_parse(repo_src, rnd, table=None, inputs=None):
-    ins = inputs if inputs is not None else (corpus.parse_cases() + corpus.corrupt(corpus.SEEDS + corpus.parse_cases()[:400], rnd, 1500))
+    ins = inputs if inputs is not None else (corpus.parse_cases() + corpus.corrupt(corpus.SEEDS + corpus.parse_cases()[:400], rnd, 1500) + corpus.random_parse_cases(rnd.randint(0, 10**6)))
     ins = list(dict.fromkeys(ins))
     cases = [dict(m='rt', s=s) for s in ins]
     res = run_cases(cases, repo_src)
@@ -157,7 +157,7 @@ def check_parse(repo_src, rnd, table=None, inputs=None):
     return out, len(cases)
 
 def check_exec(repo_src, rnd, inputs=None):
-    ins = list(dict.fromkeys(inputs if inputs is not None else corpus.exec_cases()))
+    ins = list(dict.fromkeys(inputs if inputs is not None else (corpus.exec_cases() + corpus.random_exec_cases(rnd.randint(0, 10**6)))))
     cases = [dict(m='exec', s=s) for s in ins]
     res = run_cases(cases, repo_src)
     out = []
